@@ -1,5 +1,6 @@
 import CookModel.Analysis.Collector
 import CookModel.Lemmas.Text
+import CookModel.Lemmas.LexLaws
 /-
   C01  Printing a recipe as Cooklang and parsing it returns that recipe.
 
@@ -105,5 +106,49 @@ theorem C01_plain_text (t0 : Tok) (ts : List Tok) (h : ∀ t ∈ t0 :: ts, Plain
     | nil => exact absurd hh hne
     | cons _ _ => rfl
   simp only [Span.pos, Nat.le_refl, if_true, this, Bool.false_eq_true, if_false, List.nil_append]
+
+/-! ### the lexer/printer law -/
+
+/-- Base of the print/parse round trip.  `render` concatenates the texts of a token list;
+    `WellSpelled cs ts` (decidable, `spellOK` token by token) says each token's text is what
+    `advance_token` produces for its kind when the next token's first character follows: a word
+    starts with a character that falls through to the word case, continues with word characters
+    and is not followed by a word character; an integer is a maximal digit run (`zeroInt` iff a
+    leading 0 and more digits); `-`/`>` are not followed by `-`/`>`; `[` is not followed by `-`;
+    a lone CR is not followed by LF; whitespace runs are maximal; an escape is a backslash and one
+    character (alone only at the very end); a line comment runs to the LF or the end; a block
+    comment ends at its first `-]` (unclosed only at the very end).  A printer that only emits
+    well spelled lists is read back token for token: same kinds, same texts. -/
+theorem C01_lex_render (cs : CharSpec) (ts : List Tok) (h : WellSpelled cs ts) :
+    (lex cs (render ts)).map (fun t => (t.kind, t.text)) = ts.map (fun t => (t.kind, t.text)) :=
+  lexFrom_render cs 0 ts h
+
+/-- … and the positions are read back too when the list carries the contiguous positions from
+    its start offset (they are determined by tiling) -/
+theorem C01_lex_render_positions (cs : CharSpec) (off : Nat) (ts : List Tok) (h : WellSpelled cs ts)
+    (hc : Chain off ts) : lexFrom cs off (render ts) = ts := lexFrom_render_chain cs off ts h hc
+
+/-- `WellSpelled` is not stronger than needed: every token list the lexer produces is well
+    spelled (and renders to the input, `C04_tokens_tile`), so the well spelled contiguous lists are
+    exactly the outputs of the lexer. -/
+theorem C01_lexer_output_well_spelled (cs : CharSpec) (off : Nat) (s : List Char) :
+    WellSpelled cs (lexFrom cs off s) ∧ render (lexFrom cs off s) = s :=
+  ⟨lexFrom_wellSpelled cs off s, lexFrom_tile cs off s⟩
+
+/-! examples: the token list of `Add @salt{1%tsp} -- c⏎` is well spelled and is read back; a word
+    followed by a word, or `-` followed by `-`, is rejected (they would be read as one token) -/
+def C01_exampleLine : List Tok := [
+  ⟨.word, ['A', 'd', 'd'], 0⟩, ⟨.ws, [' '], 3⟩, ⟨.at, ['@'], 4⟩, ⟨.word, ['s', 'a', 'l', 't'], 5⟩,
+  ⟨.openBrace, ['{'], 9⟩, ⟨.int, ['1'], 10⟩, ⟨.percent, ['%'], 11⟩, ⟨.word, ['t', 's', 'p'], 12⟩,
+  ⟨.closeBrace, ['}'], 15⟩, ⟨.ws, [' '], 16⟩, ⟨.lineComment, ['-', '-', ' ', 'c'], 17⟩, ⟨.newline, ['\n'], 21⟩]
+
+example : WellSpelled toyCharSpec C01_exampleLine := by decide
+example : Chain 0 C01_exampleLine := by unfold C01_exampleLine; repeat' constructor
+example : lex toyCharSpec (render C01_exampleLine) = C01_exampleLine :=
+  C01_lex_render_positions toyCharSpec 0 _ (by decide) (by unfold C01_exampleLine; repeat' constructor)
+example : ¬ WellSpelled toyCharSpec [⟨.word, ['a', 'b'], 0⟩, ⟨.word, ['c', 'd'], 2⟩] := by decide
+example : ¬ WellSpelled toyCharSpec [⟨.minus, ['-'], 0⟩, ⟨.minus, ['-'], 1⟩] := by decide
+example : ¬ WellSpelled toyCharSpec [⟨.int, ['0', '1'], 0⟩] := by decide
+example : WellSpelled toyCharSpec [⟨.zeroInt, ['0', '1'], 0⟩, ⟨.dot, ['.'], 2⟩, ⟨.int, ['5'], 3⟩] := by decide
 
 end Cook
